@@ -16,6 +16,11 @@ CLAIMS = {
   'text': 'Modular chain of function and loop contracts on the real resize code: the stored target is a power of two in [1,max] for every request; on a quiescent table the do-while of _do_cds_lfht_resize exits after one pass for EVERY requested size (termination by a passing unwinding assertion under the grow/shrink contracts) with size == target; grow/shrink/init_table/fini_table compute exactly the documented sizes for all orders <= 63 (loop invariants + variants), allocate < populate < release-publish on grow, publish < GP < unlink < GP < free (each order once) on shrink, size always a power of two within [1,max]; stops under in_progress_destroy.',
   'note': 'Assumed: bsr-based fls (inline asm) instruction contract; sequential primitives; quiescent table (no concurrent re-targeting); leaves (alloc/populate/remove/free of bucket tables) are ghost-event contracts - their bodies belong to C05/C08; partition and work-queue threads not modelled.',
  },
+ 'C20': {
+  'category': 'proof',
+  'text': 'For every object type (u8..i64, pointer), six operand types and ALL operand/old values: set/read/load/store/xchg/cmpxchg/add_return/sub_return/add/sub/inc/dec/and/or of the real macro stack store and return the C expression wrapped to the width, with the sign of the object type, and leave the neighbouring bytes untouched - on the default x86 path (x86.h + generic.h with the 32 asm statements mechanically replaced by assumed instruction contracts) and on the CONFIG_RCU_USE_ATOMIC_BUILTINS path. Loop-free, full-domain symbolic inputs: complete. Static fact: every RMW asm is lock-prefixed or xchg with a memory clobber.',
+  'note': 'Assumed: Intel instruction semantics of cmpxchg/xchg/xadd/and/or/add/inc/dec (verif/x86_insn.h), CBMC models of __atomic builtins. NOT decided: atomicity / lost-update freedom under concurrency and the full-fence effect of locked instructions (hardware).',
+ },
 }
 for i in range(1, 21):
     k = 'C%02d' % i
